@@ -13,5 +13,7 @@ CONSTANTS
   FIX_TRYREMOVE_LOADING = FALSE
   FIX_ADD_CLOSED = TRUE
   FIX_TRYREMOVE_ERR = TRUE
+  CloseDeadline = TRUE
+  BOUND_LOADS = FALSE
   Loose = FALSE
 INVARIANT NoPanic
